@@ -328,6 +328,12 @@ func runC20(p *core.Prog, r *core.Report, tier string) {
 			if !(kd.Kind == "binop" && kd.Name == "-" && kd.Args[1].Kind == "const") {
 				continue
 			}
+			// a single-key delete that is only reached when an earlier call of the function succeeded does not slide:
+			// every failure leaves the key it would have removed behind for ever
+			if call := deleteDependsOnSuccess(ds, f, d.Instr); call != "" {
+				reasons = append(reasons, "the sliding delete in "+core.FnKey(f)+" is only reached when "+call+" succeeds: each failure leaks the entry that delete would have removed (later deletes target later keys)")
+				continue
+			}
 			// E3: on an event handler path
 			root := f
 			if eventHandlers[root] {
@@ -899,4 +905,36 @@ func rangeCollectionDesc(p *core.Prog, ds *core.Describer, f *ssa.Function, l *c
 		desc = types.ExprString(l.RangeExpr())
 	}
 	return desc
+}
+
+// deleteDependsOnSuccess: the delete instruction is unreachable once the err == nil edges of some (T, error) call of
+// the same function are removed; returns that call's name, "" otherwise.
+func deleteDependsOnSuccess(ds *core.Describer, f *ssa.Function, del ssa.Instruction) string {
+	out := ""
+	core.EachInstr(f, func(in ssa.Instruction) {
+		c, ok := in.(*ssa.Call)
+		if !ok || out != "" {
+			return
+		}
+		sig := c.Call.Signature()
+		n := sig.Results().Len()
+		if n == 0 || !core.IsErrorType(sig.Results().At(n-1).Type()) {
+			return
+		}
+		var errV ssa.Value = c
+		if n > 1 {
+			errV = core.ExtractOf(c, n-1)
+		}
+		if errV == nil {
+			return
+		}
+		guard := func(cd core.Cond) int { return core.ErrNilSucc(cd, errV) }
+		if core.CountGuards(ds, f, guard) == 0 {
+			return
+		}
+		if core.Unguarded(ds, f, nil, func(x ssa.Instruction) bool { return x == del }, guard) == nil {
+			out = core.CalleeName(&c.Call)
+		}
+	})
+	return out
 }
